@@ -177,7 +177,7 @@ def main(tier, replay):
     common.build('asan')
     xbin = common.harness('vxform', 'asan', transform=True); dbin = common.harness('vdrv', 'asan')
     outroot = common.scratch('c06')
-    n = 200 if tier == 'quick' else 4000
+    n = 800 if tier == 'quick' else 4000
     base = chk.seed * 1000000 + 606
     seeds = [('m%d' % i, base + i) for i in range(n)] + [('d%d' % i, -(base + 700000 + i)) for i in range(n // 5)]
     jobs = [(xbin, dbin, os.path.join(outroot, 'w%d' % (i // 10)), seeds[i:i + 10]) for i in range(0, len(seeds), 10)]
